@@ -72,6 +72,89 @@ let () =
     | UOk r -> ps "ok"; plist (fun (isr, v) -> pb isr; pz v) r
     | UPanic -> ps "panic")
 
+
+(* ---- parser tables, grammars, certificates, kept by id ---- *)
+let tabs : (int, tables) Hashtbl.t = Hashtbl.create 16
+let grams : (int, prod0 list) Hashtbl.t = Hashtbl.create 16
+let certs : (int, cert) Hashtbl.t = Hashtbl.create 16
+
+let kind_of_int = function
+  | 0 -> KUser | 1 -> KSPrime | 2 -> KOneOrMore | 3 -> KOneOrMoreF | 4 -> KList | 5 -> KZeroOrOne | _ -> KZeroOrMore
+
+let cls_tab : (int, int array) Hashtbl.t = Hashtbl.create 16
+let cur_cls : int array ref = ref [||]
+let cl p = if p >= 0 && p < Array.length !cur_cls then !cur_cls.(p) else p
+
+let rec ser_val v =
+  match v with
+  | VNil -> "nil"
+  | VTok (ty, id) -> if int_of_z ty = 0 && false then "Z" else "T(" ^ string_of_int (int_of_z ty) ^ "," ^ string_of_int (int_of_nat id) ^ ")"
+  | VErr (t, ex) -> "E(" ^ ser_val t ^ ",[" ^ String.concat " " (List.map (fun k -> string_of_int (int_of_z k)) ex) ^ "])"
+  | VNode (p, args) -> "N(" ^ String.concat "," (string_of_int (cl (int_of_z p)) :: List.map ser_val args) ^ ")"
+  | VList [] -> "Z"
+  | VList l -> "L(" ^ String.concat "," (List.map ser_val l) ^ ")"
+  | VZero -> "Z"
+
+let discard_fn v =
+  match v with
+  | VTok (_, _) -> true
+  | VNode (p, _) -> (cl (int_of_z p)) mod 2 = 1
+  | _ -> false
+
+let ser_event is_user e =
+  match e with
+  | ERed (p, res) -> if is_user (int_of_z p) then Some ("R" ^ string_of_int (cl (int_of_z p)) ^ "=" ^ ser_val res) else None
+  | EBounds (res, b, e) -> Some ("B=" ^ ser_val res ^ ";" ^ ser_val b ^ ";" ^ ser_val e)
+
+let () =
+  reg "tables" (fun c ->
+    let id = int c in
+    let a = list z c in let g = list z c in let r = list z c in let t = list z c in
+    let k = list (fun c -> kind_of_int (int c)) c in
+    let cls = Array.of_list (list int c) in
+    Hashtbl.replace cls_tab id cls;
+    Hashtbl.replace tabs id { t_actions = a; t_goto = g; t_rules = r; t_term_counts = t; t_kinds = k };
+    ps "ok");
+  reg "grammar" (fun c ->
+    let id = int c in
+    let prods = list (fun c ->
+      let l = nat c in
+      let rhs = list (fun c -> let is_t = bool c in let i = nat c in if is_t then T i else NT i) c in
+      { lhs = l; rhs = rhs }) c in
+    Hashtbl.replace grams id prods; ps "ok");
+  reg "cert" (fun c ->
+    let id = int c in
+    let items = list (fun c -> list (fun c -> let p = nat c in let d = nat c in let a = nat c in ((p, d), a)) c) c in
+    let nullable = list bool c in
+    let first = list (fun c -> list nat c) c in
+    Hashtbl.replace certs id { c_items = items; c_nullable = nullable; c_first = first }; ps "ok");
+  reg "validate" (fun c ->
+    let id = int c in let nterm = nat c in
+    let g = Hashtbl.find grams id and tb = Hashtbl.find tabs id and ce = Hashtbl.find certs id in
+    pb (validate g tb ce nterm);
+    pb (check_arrays g tb ce nterm); pb (check_kinds g tb); pb (check_sprime g);
+    pb (check_nullable_first g ce nterm); pb (check_init ce);
+    pb (check_items g tb ce nterm); pb (check_rows g tb ce nterm));
+  reg "parse" (fun c ->
+    let id = int c in let eb = bool c in let rc = bool c in let fuel = nat c in
+    let w = list z c in
+    let tb = Hashtbl.find tabs id in
+    cur_cls := (try Hashtbl.find cls_tab id with Not_found -> [||]);
+    let is_user p = (match List.nth_opt tb.t_kinds p with Some KUser -> true | _ -> false) in
+    let fin tag s =
+      ps tag; pn s.pos;
+      let evs = List.filter_map (ser_event is_user) (List.rev s.trace) in
+      ps ("[" ^ String.concat " " evs ^ "]");
+      (match s.stack with
+       | top :: _ -> ps (ser_val top.i_sym)
+       | [] -> ps "-") in
+    match parse tb eb rc discard_fn fuel w with
+    | Accept s -> fin "ACC" s
+    | Reject s -> fin "REJ" s
+    | Continue s -> fin "CONT" s
+    | Crash -> ps "CRASH"
+    | Fuel -> ps "FUEL")
+
 let () =
   try
     while true do
